@@ -11,7 +11,7 @@ RULE = ('one case = the real selector actor (start_node_selector + DCAwareSelect
 ASSUMPTIONS = ['the per-level result cache (2 s) does not expire within a case unless the case says so (sel-expire sleeps 2.1 s)',
                'sel-set layouts (fed to the selector directly) have unique addresses; layouts WITHOUT the local node, the empty layout and the state before the first update are exercised (degenerate cases) but the property oracle only speaks about layouts that contain the local node in its own data centre (what the membership layer installs)']
 TRUSTED_BASE = ['correspondence: dcharness (real selector actor through NodeSelectorHandle) vs dcdriver (Datacake.Selector model); hook H3 records the random DC choice']
-THEOREM_NOTE = 'Datacake.Selector.selectN / selectNodes / setNodes / getNodes / dcLayout (Model/Selector.lean); Props/C15c: dcLayout_wf (the map the watcher installs is well-formed for EVERY snapshot: WF is discharged, not assumed), wired_selection_sound, legacy_wiring_duplicates'
+THEOREM_NOTE = 'Datacake.Selector.selectN / selectNodes / setNodes / getNodes / dcLayout (Model/Selector.lean); Props/C15c: dcLayout_wf (the map the watcher installs is well-formed for EVERY snapshot: WF is discharged, not assumed), wired_selection_sound, local_dc_present, wired_selection_sound_of_snapshot (no hypothesis left but the snapshot's own shape), legacy_wiring_duplicates'
 LEVELS = ['none', 'one', 'two', 'three', 'quorum', 'localquorum', 'all', 'eachquorum']
 JOBS = 8
 
